@@ -16,7 +16,7 @@ theorem rv_clean (f : Bytes → Bytes) (s : Bytes) (h : (36 : Nat) ∉ s) : RV f
   | succ n => simp [replaceVars, splitDollar_none s h]
 
 theorem rv_replaceVariables (f : Bytes → Bytes) (s s' : Bytes) (h : RV f s s') :
-    replaceVariables (some f) s = .ok s' := h _ (Nat.lt_succ_self _)
+    replaceVariables (some f) s = .ok s' := h _ (by omega)
 
 /-- a byte that ends a variable name -/
 def Stopper (c : Nat) : Prop := ∀ i, isVarChar (i + 1) c = false
